@@ -198,6 +198,13 @@ class P:
             for pair in itertools.combinations(["shardno", "nshards", "nullshard", "nullmap", "misplaced"], 2):
                 for nsh in ((33, 31) if "nshards" in pair else (32,)):
                     out.append(self.doc_case(g, rng, proto, forced=(pair, nsh))[0])
+            # a LARGE reachable cache (1000 templates of 20 fields from one exporter: a file of well over a megabyte): the restart
+            # is as transparent as with a small one (a file read through a limit or a fixed buffer comes back as a prefix)
+            a = rand_addr(rng)
+            fat = [Tpl(256 + i, [], [(1 + (i + j) % 30, 0, 4) for j in range(20)]) for i in range(1000)]
+            s = " ".join("%s %s" % (hx(a), hx(g.enc_msg([g.enc_set(g.tpl_set_id(False), b"".join(g.enc_tpl(t, False) for t in fat[k:k + 50]))])))
+                         for k in range(0, 1000, 50))
+            out.append("cachert %s FULL S %s H %s" % (proto, s, self.hist(g, rng, proto, {a: [fat[0], fat[999], fat[500]]}, force=True)))
             n = budget // 2
             for i in range(n):
                 k = i % 10
